@@ -207,7 +207,7 @@ pub fn run(run: &Run) {
         let s = if net == NetID::Mainnet { s } else { s };
         let model = model_of(&s, &universe, &builtin_pool_keys(), &block);
         let h0 = s.header();
-        let n0 = Node { real: Real::Sealed(s), model, path: std::sync::Arc::new(vec![format!("genesis[{:?}+stake]", net)]), trace: std::sync::Arc::new(vec![json!({"root": format!("{:?} with one initial stake", net)})]), lineage: std::sync::Arc::new(vec![h0]), salt: 0 };
+        let n0 = Node::new_root(Real::Sealed(s), model, format!("genesis[{:?}+stake]", net), json!({"root": format!("{:?} with one initial stake", net)}), vec![h0]);
         let eng = Engine::new(run);
         // testnet must cross its 500 activation honestly before being re-labelled high up; mainnet pre-906 trees at 900000 would be inconsistent: stay below 830000 there
         let start = if net == NetID::Mainnet { 829_000 } else { 0 };
